@@ -18,7 +18,9 @@ Inductive tcp_b :=
 | JAnswer (close idflip : bool) (b2 b3 an bn bseed : N)
 | JDieAfterQuery | JDieOnAccept | JPartial.
 
-Inductive ores := ORep (n sum : N) | OErr | OPanic.
+(** [ORefused]: the error is a refused connection (ECONNREFUSED from the dial)
+    and came back in less than half of the caller's deadline; [OErr]: any other error *)
+Inductive ores := ORep (n sum : N) | OErr | OPanic | ORefused.
 
 (** caller's query: id, flag byte 2, question bytes [gen_bytes qn qseed] *)
 Inductive step_in := SIn (cid qb2 qn qseed : N) (pres : list pre) (u : udp_beh) (t : tcp_b).
@@ -73,7 +75,11 @@ Inductive case :=
       one (a re-send, about a second later each) with flag byte [b2] under the
       id of the datagram it answers.  Observed: (id, checksum) of these
       [ignored + 1] datagrams, and what the caller got *)
-| CResend (warm ignored : N) (q : N * N * N) (b2 : N) (dgrams : list (N * N)) (res : ores).
+| CResend (warm ignored : N) (q : N * N * N) (b2 : N) (dgrams : list (N * N)) (res : ores)
+  (** as [CStale] up to the [k] idle connections; then the TCP server closes
+      them while they are idle and the client has seen all [k] die (close
+      events of the upstream); then the query [q] (TC), every connection is answered *)
+| CDeadIdle (k : N) (q : N * N * N) (p1_ok noticed : bool) (res : ores) (new_conns seen_n : N) (seen_same : bool).
 
 (** ** Messages *)
 
@@ -122,7 +128,8 @@ Definition sig (b : bytes) : N * N := (len b, checksum b).
 Definition res_eqb (r : result) (o : ores) : bool :=
   match r, o with
   | RReply b, ORep n s => pair_eqb (sig b) (n, s)
-  | RErr _, OErr => true
+  | RErr e, OErr => negb (e =? e_refused)
+  | RErr e, ORefused => e =? e_refused
   | RPanic, OPanic => true
   | _, _ => false
   end.
@@ -206,6 +213,15 @@ Definition agree_stale (k : N) (q : N * N * N) (p1_ok : bool) (res : ores)
   p1_ok && seen_same && res_eqb r res && tcp_used tq
   && (new_conns =? te_conns (snd t)) && (seen_n =? N.of_nat (length (te_seen (snd t)))).
 
+Definition agree_dead_idle (k : N) (q : N * N * N) (p1_ok noticed : bool) (res : ores)
+                           (new_conns seen_n : N) (seen_same : bool) : bool :=
+  let qb := timed_query q in
+  let udp := udp_exchange qb k [timed_udp_reply (udp_wire_query qb k) 130] in
+  let t := reuse_dead_idle (N.to_nat k) timed_tcp_reply qb in
+  let '(r, tq) := udp_with_fallback qb udp (fun q' => fst (reuse_dead_idle (N.to_nat k) timed_tcp_reply q')) in
+  p1_ok && noticed && seen_same && res_eqb r res && tcp_used tq
+  && (new_conns =? te_conns (snd t)) && (seen_n =? N.of_nat (length (te_seen (snd t)))).
+
 Definition agree_resend (warm ignored : N) (q : N * N * N) (b2 : N) (dgrams : list (N * N)) (res : ores) : bool :=
   let qb := timed_query q in
   let sends := udp_sends qb warm (S (N.to_nat ignored)) in
@@ -230,6 +246,8 @@ Definition agree (c : case) : bool :=
   | CAbandon a b dl_a delay dl_b res_a res_b => agree_abandon a b res_a res_b
   | CStale k q p1_ok res new_conns seen_n seen_same => agree_stale k q p1_ok res new_conns seen_n seen_same
   | CResend warm ignored q b2 dgrams res => agree_resend warm ignored q b2 dgrams res
+  | CDeadIdle k q p1_ok noticed res new_conns seen_n seen_same =>
+    agree_dead_idle k q p1_ok noticed res new_conns seen_n seen_same
   end.
 
 (** ** spec: the property's own reading of the observation, on raw bytes
@@ -245,6 +263,7 @@ Definition raw_msg (id b2 b3 an : N) (body : bytes) : bytes :=
   [id / 256; id mod 256; b2; b3; 0; 1; an / 256; an mod 256; 0; 0; 0; 0] ++ body.
 
 Definition is_err (r : ores) : bool := match r with OErr => true | _ => false end.
+Definition is_refused (r : ores) : bool := match r with ORefused => true | _ => false end.
 Definition is_rep (r : ores) (b : bytes) : bool :=
   match r with ORep n s => pair_eqb (sig b) (n, s) | _ => false end.
 Definition nonempty {A} (l : list A) : bool := match l with [] => false | _ => true end.
@@ -270,8 +289,9 @@ Definition step_spec (listening first : bool) (cum : N) (i : step_in) (o : step_
           if 13 <=? len r then
             is_rep res r && (1 <=? cum + acc) && nonempty seen && forallb (pair_eqb (sig q)) seen
           else is_err res
-        else is_err res && (acc =? 0)
-      | _ => is_err res && (listening || (acc =? 0)) && forallb (pair_eqb (sig q)) seen
+        else is_refused res && (acc =? 0)   (* the refusal itself, promptly; not the caller's deadline *)
+      | _ => (if listening then is_err res else is_refused res && (acc =? 0))
+             && forallb (pair_eqb (sig q)) seen
       end
     else
       let r := raw_msg cid b2 b3 an (qbody ++ gen_bytes bn bseed) in
@@ -328,6 +348,12 @@ Definition spec (c : case) : bool :=
     let '(cid, qn, qseed) := q in
     if tc_of b2 then is_rep res (raw_msg cid 132 128 1 (gen_bytes qn qseed ++ gen_bytes 4 cid))
     else is_rep res (raw_msg cid b2 128 0 (gen_bytes qn qseed))
+    (* connections that died while idle do not count: for ANY k the caller gets
+       the TCP answer, from one new connection *)
+  | CDeadIdle k q p1_ok noticed res new_conns seen_n seen_same =>
+    let '(cid, qn, qseed) := q in
+    p1_ok && noticed && seen_same
+    && is_rep res (raw_msg cid 132 128 1 (gen_bytes qn qseed ++ gen_bytes 4 cid)) && (new_conns =? 1)
   end.
 
 (** ** non-trivial: TC set somewhere, a flag byte other than the plain
@@ -350,4 +376,5 @@ Definition nontrivial (c : case) : bool :=
   | CAbandon a b _ _ _ _ _ => negb (pair_eqb (fst a) (fst b))
   | CStale k _ _ _ _ _ _ => 0 <? k
   | CResend _ ignored _ _ _ _ => 0 <? ignored
+  | CDeadIdle k _ _ _ _ _ _ _ => 0 <? k
   end.
